@@ -141,8 +141,12 @@ vf::H128 state_hash() {
 // (never returns for a finished caller).
 void schedule(bool can_run) {
   int self = t_self;
+  const bool at_point = can_run;  // false: the caller blocked (or finished), so switching away is free
   for (;;) {
     Thr &s = g_thr[self];
+    // a blocked caller that has been made runnable meanwhile (its own timer fired while nobody else
+    // could run) is an ordinary candidate again
+    if (!can_run && s.st == RUNNABLE && !at_point) can_run = true;
     bool self_yielded = can_run && s.yielded && s.yield_epoch == g_epoch;
     if (s.yielded && s.yield_epoch != g_epoch) s.yielded = false;
     int cand[MAXTHR + 2];
@@ -157,7 +161,7 @@ void schedule(bool can_run) {
       Thr &t = g_thr[i];
       if (t.st != RUNNABLE) continue;
       if (t.yielded && t.yield_epoch == g_epoch) continue;
-      if (self_enabled) {
+      if (self_enabled && at_point) {
         if (capk <= 0) continue;
         cand[n] = i; kinds[n++] = vf::PREEMPT;
       } else {
